@@ -32,3 +32,36 @@ claim("C16",
            "Trusted: Lean kernel + 3 standard axioms, the hand-written model, the Python harness and oracle.",
       technique="Lean 4 proof over executable model + differential correspondence with the Python implementation",
       design_ref="DESIGN.md §5 C16")
+
+claim("C07",
+      text="Proved in Lean 4 for all inputs of the model (shared semantic core Verif/Common/Sem.lean): is_connected equals "
+           "connectivity of the predication/label/variable graph (BFS correctness, start-independent); the intrinsic-variable "
+           "tests equal their definitions; is_well_formed is exactly the conjunction; the scope map partitions the predications "
+           "by label and the top label is the resolved top; conjoin yields exactly the connected components of the label "
+           "equalities; descendants and representatives terminate on every MRS (fuel sufficiency) and every representative is a "
+           "member of its scope; for DMRS with distinct node ids the top scope is the unique scope containing the node whose id "
+           "is top (code after the F07 fix). Existence of a representative is proved only under acyclicity of the in-scope "
+           "blocking relation; the unrestricted clause is false of the code (F08: decide-checked counter-example, known finding).",
+      note="plausibly_scopes has no definition in the property; it is modelled line by line, compared with the code, and re-stated "
+           "naively in the oracle. Assumed: variables are (sort, canonical id); EP ids distinct (proved when every ARG0 has a sort "
+           "other than '_'; otherwise the driver answers 'unmodelled'); Python set order and the recursion limit are not modelled; "
+           "DMRS descendants/representatives are checked by the oracle only. Tie: 4.7k model/implementation comparisons per quick "
+           "run, 141k per thorough run. Trusted: Lean kernel + 3 standard axioms, the hand-written model, harness and oracle.",
+      technique="Lean 4 proof over executable model + differential correspondence with the Python implementation",
+      design_ref="DESIGN.md §5 C07")
+
+claim("C18",
+      text="Lean 4 theorems over a model of edm.compute including triple extraction from EDS and DMRS structures prove, for all "
+           "lists with None entries and unequal lengths, both flag settings and all weights, that the scores are the zero-safe "
+           "ratios of the weighted sums of gold, test and multiset-intersection triple counts over exactly the counted pairs; the "
+           "Counter formula is proved equal to an independently defined multiset intersection. Proved consequences for "
+           "non-negative weights: scores in [0,1], no division by zero, identical lists score 1 when they contain a positively "
+           "weighted triple, exchanging gold and test swaps precision and recall, invariance under injective renaming and under "
+           "reordering of nodes and links. The model is tied to the code by exact comparison of _accumulate totals and Fraction "
+           "scores on 4.4k cases per quick run (42k thorough).",
+      note="Trusted: Lean kernel + propext/Classical.choice/Quot.sound; the hand-written model (validated on generated inputs "
+           "only); the Python harness and its naive oracle; the injective spelling of EDS ids. Not modelled: IEEE float rounding "
+           "(oracle only, 1e-9 relative against the exact rational). Outside the property's input space (duplicate ids, links "
+           "starting at no node, negative weights): correspondence only.",
+      technique="Lean 4 proof over executable model + differential correspondence with the Python implementation",
+      design_ref="DESIGN.md §5 C18")
